@@ -121,7 +121,10 @@ def iso_finder(
         else:
             pass
         if sort_emit:
-            adj_arr = np.array([x[0] for x in emitter_sorted(adj_arr[:n_iso])])
+            # the original graph stays the first element; the others are sorted by emitter count
+            adj_arr = np.array(
+                [adj_arr[0]] + [x[0] for x in emitter_sorted(adj_arr[1:n_iso])]
+            )
         if label_map:
             mapping = []
             for new_adj in adj_arr:
